@@ -815,7 +815,7 @@ class Exec:
             name = f.id
             if name in ("next",) and node.args and isinstance(node.args[0], ast.GeneratorExp):
                 return self.call_next_genexp(node, st)
-            if name in ("sum", "any", "all") and node.args and isinstance(node.args[0], ast.GeneratorExp):
+            if name in ("sum", "any", "all") and node.args and isinstance(node.args[0], (ast.GeneratorExp, ast.ListComp)):
                 return self.ctx.contracts.reduce_genexp(self, name, node, st)
             if name == "super":
                 return [(VOpaque("super"), st)]
